@@ -8,7 +8,7 @@ from bcommon import prepare  # noqa
 
 TRUSTED = ["sequentially consistent interleaving semantics at the granularity of the cfg(nucleo_verif) yield points (between two yield points of a thread there is at most one shared access another thread can observe); weak-memory behaviour is C09's subject",
            "the scheduler harness (harness/hn/src/sched.rs) parks real threads at the yield points"]
-ASSUMPTIONS = ["one matcher column; values are ids; fill callbacks write cols = 2*id+1 or panic"]
+ASSUMPTIONS = ["histories: one matcher column; values are ids; fill callbacks write cols = 2*id+1 or panic", "layout probe: single threaded, 1-5 columns, item alignments 1..64"]
 
 
 def oracle(line, vals, obs):
@@ -53,7 +53,7 @@ def oracle(line, vals, obs):
                 v, c = o[1:].split(",")
                 if i not in owner:
                     fails.append(("phantom", "get(%d) returned an item although no push was assigned that index" % i))
-                elif owner[i] != int(v) or int(c) != 2 * int(v) + 1:
+                elif str(owner[i]) != v or c != str(2 * owner[i] + 1):
                     fails.append(("torn", "get(%d) returned value %s / columns %s, the push assigned value %s with columns %s" % (i, v, c, owner[i], 2 * owner[i] + 1)))
             elif i in completed:
                 fails.append(("stable", "get(%d) returned nothing after the push of that index had returned" % i))
@@ -94,15 +94,17 @@ def run(ctx, broken):
             res["failures"].append({"class": cls, "what": what + " -- history: " + line[:400], "case": line})
         if any(o.startswith("Y") for o in io):
             nt.add(line)
-    res["failures"] = res["failures"][:200]
-    res["distinct_nontrivial"] = len(nt)
+    pn, pf = bcommon.layout_probe(ctx)
+    res["failures"] = pf[:20] + res["failures"][:200]
+    res["evaluations"] += pn
+    res["distinct_nontrivial"] = len(nt) + pn
     res["rule"] = ("random histories over a fresh boxcar vector (capacities 0,1,31,32,33,100): 1-5 threads doing push / extend (honest and lying ExactSizeIterators, "
                    "panicking fills), each parked by the scheduler at every yield point (after fetch_add, before every bucket CAS, before every publication) and stepped in "
                    "random order, interleaved with get / count / snapshot probes; styles: mixed, bucket-boundary races, lying extends. Every observation is compared with the "
                    "extracted model's and checked by the spec oracle (distinct gap-free indices, no phantom / torn / vanishing items, monotone count). Non-trivial = history "
-                   "in which at least one thread was parked mid-operation. %d observations in total." % steps)
+                   "in which at least one thread was parked mid-operation. %d observations in total." % steps) + bcommon.LAYOUT_RULE + " %d probe cases." % pn
     res["samples"] = [{"history": r[0][:300], "implementation": ";".join(r[2])[:300]} for r in recs[:3]]
-    res["extra"] = {"observations": steps}
+    res["extra"] = {"observations": steps, "layout_probe_cases": pn}
     return res
 
 
@@ -114,6 +116,8 @@ def replay(path):
     d = json.load(open(path))
     f = d.get("failure") or {}
     print(f.get("what", json.dumps(d)[:2000]))
+    if f.get("case") and bcommon.replay_probe(f["case"]):
+        return 0
     if f.get("case"):
         hn = vlib.build_harness("hn")
         p = os.path.join(vlib.SCRATCH, "replay_bx.txt")
